@@ -1,4 +1,6 @@
 #include "sorterlib.h"
+#include <sys/stat.h>
+#include <unistd.h>
 #include "tablelib.h"
 #include "../sim/simsched.h"
 #include "../sim/seams.h"
@@ -58,10 +60,14 @@ void run_sorter(const SorterSpec &s, RunResult &res, SorterOutcome &out)
 		if (buffered >= limit) { out.limit_crossings++; buffered = 0; nbuf = 0; }
 		if (s.check_spill) {
 			sim_ledger lg; sim_ledger_get(&lg);
-			if ((uint64_t)lg.mkstemps > seen_spills) { seen_spills = (uint64_t)lg.mkstemps; since_spill = 0; chunk_no++; res.probes["spill-at-limit"]++; }
-			else since_spill += kv.first.size() + kv.second.size();
+			if ((uint64_t)lg.mkstemps > seen_spills) {
+				seen_spills = (uint64_t)lg.mkstemps; chunk_no++; res.probes["spill-at-limit"]++;
+				if (since_spill + kv.first.size() + kv.second.size() + s.entry_overhead == limit && s.entry_overhead) res.probes["spill-exactly-at-the-limit"]++;
+				since_spill = 0;
+			}
+			else since_spill += kv.first.size() + kv.second.size() + s.entry_overhead;
 			if (since_spill >= limit)
-				res.fail("MODEL", "SORTER-no-spill-at-limit", "after add #" + std::to_string(i) + " " + std::to_string(since_spill) + " bytes of keys and values are buffered, memory limit is " + std::to_string(limit));
+				res.fail("MODEL", "SORTER-no-spill-at-limit", "after add #" + std::to_string(i) + " " + std::to_string(since_spill) + " bytes are buffered (keys + values + " + std::to_string(s.entry_overhead) + " per entry, the overhead this build of the sorter was measured to charge), memory limit is " + std::to_string(limit));
 			auto lc = last_chunk.find(kv.first);
 			size_t this_chunk = (uint64_t)lg.mkstemps > before_spills ? chunk_no - 1 : chunk_no;
 			if (lc != last_chunk.end() && lc->second != this_chunk) out.dup_across_chunks = true;
@@ -166,4 +172,54 @@ void run_sorter(const SorterSpec &s, RunResult &res, SorterOutcome &out)
 	yield();
 	mtbl_sorter_destroy(&sorter);
 	(void)dir_entries;
+}
+
+
+// ------------------------------------------------ calibration of the sorter's accounting
+static void calib_merge(void *, const uint8_t *, size_t, const uint8_t *v0, size_t l0, const uint8_t *, size_t, uint8_t **out, size_t *lout)
+{
+	*out = (uint8_t *)malloc(l0 ? l0 : 1); memcpy(*out, v0, l0); *lout = l0;
+}
+// adds identical-size entries until the first spill file appears; returns the number of adds (0 = never)
+static size_t adds_until_spill(const std::string &tmpdir, size_t limit, size_t klen, size_t vlen)
+{
+	mtbl_sorter_options *so = mtbl_sorter_options_init();
+	mtbl_sorter_options_set_max_memory(so, limit);
+	mtbl_sorter_options_set_temp_dir(so, tmpdir.c_str());
+	mtbl_sorter_options_set_merge_func(so, calib_merge, nullptr);
+	mtbl_sorter *sr = mtbl_sorter_init(so);
+	mtbl_sorter_options_destroy(&so);
+	sim_ledger lg; sim_ledger_get(&lg);
+	int64_t before = lg.mkstemps;
+	size_t n = 0;
+	Bytes v(vlen, 'v');
+	for (size_t i = 0; i < limit; i++) {
+		char k[64]; snprintf(k, sizeof k, "%0*zu", (int)klen, i);
+		if (mtbl_sorter_add(sr, (const uint8_t *)k, klen, (const uint8_t *)v.data(), vlen) != mtbl_res_success) break;
+		sim_ledger_get(&lg);
+		if (lg.mkstemps > before) { n = i + 1; break; }
+	}
+	mtbl_sorter_destroy(&sr);
+	return n;
+}
+size_t sorter_entry_overhead(const std::string &scratch)
+{
+	static long cached = -1;
+	if (cached >= 0) return (size_t)cached;
+	cached = 0;
+	std::string d = scratch + "/calib";
+	mkdir(d.c_str(), 0700);
+	// the first spill is at the smallest n with n * e >= L  (or > L: the same n, since no multiple of a candidate e
+	// up to 64 + payload equals these primes)
+	const size_t L0 = 100003, L1 = 70001;
+	size_t n0 = adds_until_spill(d, L0, 4, 4), n1 = adds_until_spill(d, L1, 10, 30);
+	rmdir(d.c_str());
+	if (!n0 || !n1) return 0;
+	long found = -1;
+	for (size_t o = 0; o <= 64; o++) {
+		size_t e0 = o + 8, e1 = o + 40;
+		if ((L0 + e0 - 1) / e0 == n0 && (L1 + e1 - 1) / e1 == n1) { if (found >= 0) return 0; found = (long)o; }
+	}
+	if (found > 0) cached = found;
+	return (size_t)cached;
 }
